@@ -212,6 +212,7 @@ type ReadFaultStats struct {
 	SilentDifferent    int // fault reached, block not aborted, result differs from the reference
 	InTx               int // faults placed inside a DeliverTx call
 	InStaleTx          int // faults placed inside the DeliverTx of a transaction the reference refused for its nonce
+	InFreeStaleTx      int // faults aimed at a nonce-refused transaction that costs nothing
 	ReadsCounted       int
 	Sites              map[string]int // consensus frame that asked for the failing read -> count
 	AbortSites         map[string]int
@@ -257,6 +258,7 @@ func (h *History) stepReadFault(b *Block, gtxs []*GenTx, ref *BlockResult) bool 
 	}
 	h.compare(cnt, PathRestart, b, ref, cres)
 	total := 0
+	var freeStaleReads []int
 	var txReads, staleReads []int // global read indices (1-based) inside DeliverTx calls / of nonce-refused transactions
 	for p, n := range byPhase {
 		for j := 0; j < n; j++ {
@@ -265,6 +267,10 @@ func (h *History) stepReadFault(b *Block, gtxs []*GenTx, ref *BlockResult) bool 
 				txReads = append(txReads, total)
 				if p-1 < len(ref.Txs) && ref.Txs[p-1].Code != types.CodeTypeOK && strings.Contains(ref.Txs[p-1].Log, "invalid nonce") {
 					staleReads = append(staleReads, total)
+					// ... that costs nothing (what an account that looks empty could afford).
+					if g := byRaw[string(b.Txs[p-1])]; g != nil && g.Tx != nil && (g.Tx.Fee == nil || g.Tx.Fee.Amount.IsZero()) {
+						freeStaleReads = append(freeStaleReads, total)
+					}
 				}
 			}
 		}
@@ -287,6 +293,9 @@ func (h *History) stepReadFault(b *Block, gtxs []*GenTx, ref *BlockResult) bool 
 	// its nonce, then inside any delivery, else anywhere in the block.
 	var k int
 	switch c := h.Rng.IntN(10); {
+	case c < 3 && len(freeStaleReads) > 0:
+		k = freeStaleReads[h.Rng.IntN(len(freeStaleReads))]
+		st.InFreeStaleTx++
 	case c < 5 && len(staleReads) > 0:
 		k = staleReads[h.Rng.IntN(len(staleReads))]
 	case c < 8 && len(txReads) > 0:
@@ -336,6 +345,30 @@ func (h *History) stepReadFault(b *Block, gtxs []*GenTx, ref *BlockResult) bool 
 	}
 	st.Fired++
 	st.site(&st.Sites, where)
+	if os.Getenv("VERIF_DEBUG_RF") != "" {
+		// which delivery the fault fell into
+		acc, ph := 0, -1
+		for p, n := range byPhase {
+			if k > acc && k <= acc+n {
+				ph = p
+			}
+			acc += n
+		}
+		desc := fmt.Sprintf("phase %d", ph)
+		if ph >= 1 && ph <= len(b.Txs) {
+			if g := byRaw[string(b.Txs[ph-1])]; g != nil && g.Tx != nil {
+				fee := "none"
+				if g.Tx.Fee != nil {
+					fee = g.Tx.Fee.Amount.String()
+				}
+				desc += fmt.Sprintf(" %s intent=%s nonce=%d fee=%s ref=%d %q", g.Method, g.Intent, g.Tx.Nonce, fee, ref.Txs[ph-1].Code, ref.Txs[ph-1].Log)
+				if pv == nil && ph-1 < len(fres.Txs) {
+					desc += fmt.Sprintf(" faulted=%d %q", fres.Txs[ph-1].Code, fres.Txs[ph-1].Log)
+				}
+			}
+		}
+		fmt.Printf("DEBUGRF height=%d k=%d/%d len=%d site=%s aborted=%v mtb=%v %s abort=%.300v\n", b.Height, k, total, flen, where, pv != nil, h.View.StakingP.MinTransactBalance, desc, pv)
+	}
 	if inTx {
 		st.InTx++
 	}
@@ -411,6 +444,21 @@ func (h *History) stepReadFault(b *Block, gtxs []*GenTx, ref *BlockResult) bool 
 		dd = append(dd, d.What+": "+d.Detail)
 	}
 	detail["differences"] = dd
+	if h.View.StakingP != nil {
+		detail["min_transact_balance"] = h.View.StakingP.MinTransactBalance.String()
+	}
+	for i, raw := range b.Txs {
+		if i < len(fres.Txs) && i < len(ref.Txs) && (fres.Txs[i].Code != ref.Txs[i].Code || fres.Txs[i].Codespace != ref.Txs[i].Codespace) {
+			if g := byRaw[string(raw)]; g != nil && g.Tx != nil {
+				fee := "none"
+				if g.Tx.Fee != nil {
+					fee = g.Tx.Fee.Amount.String()
+				}
+				detail["first_differing_tx"] = fmt.Sprintf("tx %d %s intent=%s nonce=%d fee=%s; reference: %d %s; faulted node: %d %s", i, g.Method, g.Intent, g.Tx.Nonce, fee, ref.Txs[i].Code, ref.Txs[i].Log, fres.Txs[i].Code, fres.Txs[i].Log)
+			}
+			break
+		}
+	}
 	post := map[staking.Address]uint64{}
 	if ist, err := CommittedState(flt, 0); err == nil {
 		ss := stakingState.NewImmutableState(ist)
@@ -421,9 +469,22 @@ func (h *History) stepReadFault(b *Block, gtxs []*GenTx, ref *BlockResult) bool 
 		}
 		ist.Close()
 	}
-	lo, hi := map[staking.Address]uint64{}, map[staking.Address]uint64{}
+	refPost := map[staking.Address]uint64{}
+	if ist, err := CommittedState(h.Ref, 0); err == nil {
+		ss := stakingState.NewImmutableState(ist)
+		for a := range pre {
+			if acct, err := ss.Account(context.Background(), a); err == nil {
+				refPost[a] = acct.General.Nonce
+			}
+		}
+		ist.Close()
+	}
+	// Nonce arithmetic is modulo 2^64 (an account at the end of the nonce space legitimately wraps to 0):
+	// lo[a] is the smallest nonce the signer can have at this point of the block, span[a] how many more
+	// of its transactions may have advanced it (failed ones may or may not have passed authentication).
+	lo, span, mine := map[staking.Address]uint64{}, map[staking.Address]uint64{}, map[staking.Address]uint64{}
 	for a, v := range pre {
-		lo[a], hi[a] = v, v
+		lo[a] = v
 	}
 	for i, raw := range b.Txs {
 		if i >= len(fres.Txs) {
@@ -434,30 +495,40 @@ func (h *History) stepReadFault(b *Block, gtxs []*GenTx, ref *BlockResult) bool 
 			continue
 		}
 		a := g.Signer.Addr
+		mine[a]++
 		if fres.Txs[i].Code == types.CodeTypeOK {
-			if g.Tx.Nonce < lo[a] || g.Tx.Nonce > hi[a] {
+			if g.Tx.Nonce-lo[a] > span[a] {
 				dt := cloneDetail(detail)
-				dt["tx_index"], dt["tx_method"], dt["tx_nonce"], dt["signer_nonce_before_block"] = i, g.Method, g.Tx.Nonce, pre[a]
+				dt["tx_index"], dt["tx_method"], dt["tx_nonce"], dt["signer_nonce_before_block"] = i, g.Method, fmt.Sprint(g.Tx.Nonce), fmt.Sprint(pre[a])
 				dt["reference_result"] = fmt.Sprintf("code %d: %s", ref.Txs[i].Code, ref.Txs[i].Log)
 				h.ReadFaultFindings = append(h.ReadFaultFindings, &ReadFaultFinding{
 					Signature: "c09/readfault/transaction-with-wrong-nonce-executed/" + where,
-					What: fmt.Sprintf("on a node whose store failed one read (%s), transaction %d (%s, nonce %d) executed although its signer's nonce was in [%d,%d]; the block was not aborted",
-						where, i, g.Method, g.Tx.Nonce, lo[a], hi[a]),
+					What: fmt.Sprintf("on a node whose store failed one read (%s), transaction %d (%s, nonce %d) executed although its signer's nonce was between %d and %d (modulo 2^64); the block was not aborted",
+						where, i, g.Method, g.Tx.Nonce, lo[a], lo[a]+span[a]),
 					Detail: dt})
 			}
-			lo[a], hi[a] = g.Tx.Nonce+1, g.Tx.Nonce+1
+			lo[a], span[a] = g.Tx.Nonce+1, 0
 		} else {
-			hi[a]++ // may or may not have passed authentication
+			span[a]++ // may or may not have passed authentication
 		}
 	}
 	for a, v := range post {
-		if v < pre[a] {
+		// The stored nonce is the pre-state nonce advanced by at most the number of the signer's
+		// transactions in the block (modulo 2^64).
+		if v-pre[a] > mine[a] {
 			dt := cloneDetail(detail)
-			dt["account"], dt["nonce_before_block"], dt["nonce_after_block"] = a.String(), pre[a], v
+			dt["account"], dt["nonce_before_block"], dt["nonce_after_block"], dt["nonce_after_block_on_reference"] = a.String(), fmt.Sprint(pre[a]), fmt.Sprint(v), fmt.Sprint(refPost[a])
+			var own []string
+			for i, raw := range b.Txs {
+				if g := byRaw[string(raw)]; g != nil && g.Signer != nil && g.Signer.Addr == a && g.Tx != nil && i < len(fres.Txs) && i < len(ref.Txs) {
+					own = append(own, fmt.Sprintf("tx %d %s intent=%s nonce=%d: reference %d %q, faulted node %d %q", i, g.Method, g.Intent, g.Tx.Nonce, ref.Txs[i].Code, ref.Txs[i].Log, fres.Txs[i].Code, fres.Txs[i].Log))
+				}
+			}
+			dt["transactions_of_the_account_in_the_block"] = own
 			h.ReadFaultFindings = append(h.ReadFaultFindings, &ReadFaultFinding{
 				Signature: "c09/readfault/stored-nonce-went-backwards/" + where,
-				What: fmt.Sprintf("on a node whose store failed one read (%s), the stored nonce of %s went from %d to %d in a block that was not aborted: already executed transactions of the signer can execute again",
-					where, a, pre[a], v),
+				What: fmt.Sprintf("on a node whose store failed one read (%s), the stored nonce of %s went from %d to %d in a block with %d transactions of that signer that was not aborted: already executed transactions of the signer can execute again",
+					where, a, pre[a], v, mine[a]),
 				Detail: dt})
 		}
 	}
